@@ -62,8 +62,18 @@ Print Assumptions inline_cells_valid.
 Theorem similar_insert_value_valid : forall k T key s lo ro src v, k <= 5 -> In T cell_type_defs ->
   prop_schema (nb_defs k) T key = Some s -> ovalid k s lo -> ovalid k s ro ->
   similar_value similar_insert_id similar_insert_attachments key lo ro src = Some v -> validate (nb_defs k) F s v = Some true.
-Proof. exact (similar_value_valid_local similar_insert_attachments). Qed.
+Proof. exact (fun k T key s lo ro src v => similar_value_valid_own similar_insert_id similar_insert_attachments k T key s lo ro src v I). Qed.
 Print Assumptions similar_insert_value_valid.
+
+(* the id written for two similar inserted cells of which only one has an id (sides saved with different minors) is that
+   one id, local's when both have one; with the pre-f2e9526 code (SimIdLocal) the first conjunct is false (KeyError) *)
+Theorem similar_insert_id_one_sided : forall lv rv src,
+  similar_value similar_insert_id similar_insert_attachments k_id None (Some rv) src = Some rv /\
+  similar_value similar_insert_id similar_insert_attachments k_id (Some lv) None src = Some lv /\
+  similar_value similar_insert_id similar_insert_attachments k_id (Some lv) (Some rv) src = Some lv /\
+  similar_value similar_insert_id similar_insert_attachments k_id None None src = None.
+Proof. exact (similar_id_one_sided similar_insert_attachments). Qed.
+Print Assumptions similar_insert_id_one_sided.
 
 (* the attachments branch: both sides' attachments kept, differing ones renamed LOCAL_/REMOTE_ -- valid attachments *)
 Theorem similar_attachments_valid : forall k n latt ratt, k <= 5 ->
